@@ -881,3 +881,103 @@ func (w *verifWorld) CheckInvokeStarts(ids []string) {
 		verifAssert(w.count("platform", "invokeStart", id) == 1, "each dispatched invocation emits exactly one invoke-start")
 	}
 }
+
+
+// ---------------------------------------------------------------------------
+// exported Runtime API client for scripted runtimes assembled in package rapidcore
+
+type VerifRuntimeAPI struct {
+	w *verifWorld
+	p *verifProc
+}
+
+func (a *VerifRuntimeAPI) Dead() bool   { return a.p.dead }
+func (a *VerifRuntimeAPI) Name() string { return a.p.name }
+func (a *VerifRuntimeAPI) Exit(status int32) { a.w.sup.exit(a.p, status, 0) }
+func (a *VerifRuntimeAPI) Next() (int, string, string) {
+	r := a.w.runtimeNext(a.p.name)
+	return r.status, r.hdr.Get("Lambda-Runtime-Aws-Request-Id"), string(r.body)
+}
+func (a *VerifRuntimeAPI) Response(id string, payload []byte) (int, string) {
+	r := a.w.runtimeResponse(a.p.name, id, payload)
+	return r.status, string(r.body)
+}
+func (a *VerifRuntimeAPI) Error(id, errType string, payload []byte) (int, string) {
+	r := a.w.runtimeError(a.p.name, id, errType, payload)
+	return r.status, string(r.body)
+}
+func (a *VerifRuntimeAPI) InitError(errType string, payload []byte) (int, string) {
+	r := a.w.runtimeInitError(a.p.name, errType, payload)
+	return r.status, string(r.body)
+}
+func (a *VerifRuntimeAPI) RestoreNext() int {
+	a.w.note(a.p.name, "restorenext-issued", "")
+	r := a.w.call(a.w.hRNext, "GET", nil, nil, nil)
+	a.w.note(a.p.name, "restorenext-returned", fmt.Sprint(r.status))
+	return r.status
+}
+func (a *VerifRuntimeAPI) RestoreError(errType string) (int, string) {
+	h := http.Header{}
+	h.Set("Lambda-Runtime-Function-Error-Type", errType)
+	r := a.w.call(a.w.hRErr, "POST", h, []byte("{}"), nil)
+	a.w.note(a.p.name, "restoreerror-returned", fmt.Sprint(r.status))
+	return r.status, string(r.body)
+}
+
+// SetRuntimeScript: script(k, api) is run as the k-th started runtime process; returning false
+// falls back to the planned behaviours.
+func (w *verifWorld) SetRuntimeScript(script func(k int, api *VerifRuntimeAPI) bool) {
+	planned := w.plannedRuntime()
+	w.sup.runtimeScript = func(p *verifProc) {
+		k := w.rtStarted
+		if script(k, &VerifRuntimeAPI{w: w, p: p}) {
+			w.rtStarted++
+			return
+		}
+		planned(p)
+	}
+}
+
+
+// exported Extensions API client for scripted extensions
+type VerifExtAPI struct {
+	w   *verifWorld
+	who string
+	p   *verifProc
+}
+
+func (a *VerifExtAPI) Dead() bool { return a.p != nil && a.p.dead }
+func (a *VerifExtAPI) Register(name string, events []string) (int, string, string) {
+	r := a.w.extRegister(a.who, name, events)
+	return r.status, r.hdr.Get("Lambda-Extension-Identifier"), string(r.body)
+}
+func (a *VerifExtAPI) Next(identifier string) (int, string) {
+	r := a.w.extNext(a.who, identifier)
+	return r.status, string(r.body)
+}
+func (a *VerifExtAPI) InitError(identifier, errType string) (int, string) {
+	r := a.w.extInitError(a.who, identifier, errType)
+	return r.status, string(r.body)
+}
+func (a *VerifExtAPI) ExitError(identifier, errType string) (int, string) {
+	r := a.w.extExitError(a.who, identifier, errType)
+	return r.status, string(r.body)
+}
+
+// SetExtScript: script(base, api) runs as every started external extension process of the first
+// generation; later generations run the healthy script.
+func (w *verifWorld) SetExtScript(script func(base string, api *VerifExtAPI)) {
+	healthy := w.sup.extScript
+	w.sup.extScript = func(p *verifProc, base string) {
+		if strings.HasSuffix(p.name, "-1") {
+			script(base, &VerifExtAPI{w: w, who: p.name, p: p})
+			return
+		}
+		healthy(p, base)
+	}
+}
+
+// InternalExtAPI: an API client for an extension living inside the given runtime process.
+func (a *VerifRuntimeAPI) InternalExtAPI(name string) *VerifExtAPI {
+	return &VerifExtAPI{w: a.w, who: "internal:" + name, p: a.p}
+}
